@@ -355,7 +355,11 @@ impl Check for C11Check {
     }
     fn phases(&self, tier: Tier) -> Vec<Phase> {
         let n = small_pool().len() as u64;
-        vec![Phase::exhaustive("pool-pairs", n * n).with_chunk(64), Phase::random("random-trees", tier.pick(200_000, 2_000_000), 120).with_min_tape(24).with_chunk(512)]
+        vec![
+            Phase::exhaustive("pool-pairs", n * n).with_chunk(64),
+            Phase::random("random-trees", tier.pick(200_000, 2_000_000), 120).with_min_tape(24).with_chunk(512),
+            Phase::exhaustive("size-sweep", (crate::model::pipeline::SIZE_SWEEP.iter().filter(|n| **n <= tier.pick(129, 1000)).count() * 6 * 6) as u64).with_chunk(2).with_deadline_ms(30_000),
+        ]
     }
     fn run(&self, _tier: Tier, phase: usize, input: &Input, ctx: &mut CaseCtx) {
         match (phase, input) {
@@ -363,6 +367,56 @@ impl Check for C11Check {
                 let p = small_pool();
                 let n = p.len() as u64;
                 self.judge_pair(&p[(*i / n) as usize], &p[(*i % n) as usize], ctx);
+            }
+            (2, Input::Index(i)) => {
+                // long sequences of every kind: an equal twin, a twin differing in one position (first, middle, last), one shorter, one longer
+                let n = crate::model::pipeline::SIZE_SWEEP[(*i / 36) as usize];
+                let kind = (*i / 6) % 6;
+                if kind == 4 && n > 65 {
+                    // long symbol lists are slow to build and compare on BasicGarnishData (minutes at 200 parts); time is not C11's subject
+                    ctx.class("size-sweep-symbol-list-too-long");
+                    return;
+                }
+                let variant = *i % 6;
+                let mut idx: Vec<usize> = (0..n).collect();
+                let mut changed: Option<usize> = None;
+                match variant {
+                    0 => {}
+                    1 => changed = Some(0),
+                    2 => changed = Some(n / 2),
+                    3 => changed = Some(n - 1),
+                    4 => idx.truncate(n - 1),
+                    _ => idx.push(n),
+                }
+                let item = |k: usize, alt: bool| -> V {
+                    match kind {
+                        3 => pair(V::Sym(1000 + k as u64), V::Int(if alt { -1 } else { k as i32 })),
+                        _ => V::Int(if alt { -1 } else { (k % 50) as i32 }),
+                    }
+                };
+                let ch = |k: usize, alt: bool| if alt { 'z' } else { ['m', 'é', '漢', 'n'][k % 4] };
+                let build = |idx: &[usize], changed: Option<usize>, split: bool| -> V {
+                    match kind {
+                        0 => V::Text(idx.iter().map(|k| ch(*k, changed == Some(*k))).collect()),
+                        1 => V::Bytes(idx.iter().map(|k| if changed == Some(*k) { 255 } else { (*k % 200) as u8 }).collect()),
+                        4 => V::SymList(idx.iter().map(|k| crate::model::value::SymPart::Sym(if changed == Some(*k) { 7 } else { 1000 + *k as u64 })).collect()),
+                        _ => {
+                            let items: Vec<V> = idx.iter().map(|k| item(*k, changed == Some(*k))).collect();
+                            if split && items.len() >= 2 {
+                                // kind 5: the same items as a concatenation of two lists
+                                let (a, b) = items.split_at(items.len() / 3);
+                                V::Concat(Box::new(V::List(a.to_vec())), Box::new(V::List(b.to_vec())))
+                            } else {
+                                V::List(items)
+                            }
+                        }
+                    }
+                };
+                let all: Vec<usize> = (0..n).collect();
+                let a = build(&all, None, false);
+                let b = build(&idx, changed, kind == 5);
+                ctx.class("size-sweep");
+                self.judge_pair(&a, &b, ctx);
             }
             (1, Input::Tape(t)) => {
                 let mut t = Tape::new(t);
